@@ -21,13 +21,15 @@ theorem chkInt_ok {n : Int} {v : Val} (h : chkInt n = .ok v) : v = .int n := by
   · injection h with h; exact h.symm
   · cases h
 
-theorem binCore_binopH (h : List Obj) (op : BinOp) (a b v : Val) (hc : binCore op a b = .ok v) :
-    binopH h (binTok op) a b = .ok (v, h) := by
+theorem binCore_binopH (h : List Obj) (d : Dialect) (op : BinOp) (hop : op ≠ .div) (a b v : Val)
+    (hc : binCore op a b = .ok v) :
+    binopH h (binTok d op) a b = .ok (v, h) := by
   unfold binCore at hc
   split at hc
   · have := chkInt_ok hc; subst this; simp [binopH, binTok, asInt?]
   · have := chkInt_ok hc; subst this; simp [binopH, binTok, asInt?]
   · have := chkInt_ok hc; subst this; simp [binopH, binTok, asInt?]
+  · exact absurd rfl hop
   · rename_i x y
     split at hc
     · cases hc
@@ -109,7 +111,7 @@ theorem evalE_pure_state (fns : List FnDef) : ∀ (fuel : Nat) (e : Expr) (σ σ
       simp only [evalE] at h
       cases h1 : evalE fns f σ l with
       | mk r1 σ1 =>
-        have e1 := ih l σ σ1 r1 hp.1 h1
+        have e1 := ih l σ σ1 r1 hp.1.2 h1
         subst e1
         rw [h1] at h
         cases r1 with
@@ -184,6 +186,17 @@ theorem foldBin_sound (fns : List FnDef) (f : Nat) (op : BinOp) (l r : Expr) (σ
   · injection hf with hf; subst hf; exact (chkInt_ok hc).symm
   · injection hf with hf; subst hf; exact (chkInt_ok hc).symm
   · injection hf with hf; subst hf; exact (chkInt_ok hc).symm
+  · rename_i x y
+    split at hf
+    · cases hf
+    · injection hf with hf; subst hf
+      simp only [binCore] at hc
+      split at hc
+      · cases hc
+      · rename_i hxy
+        injection hc with hc; subst hc
+        have hy : 0 ≤ y := by omega
+        rw [Int.fdiv_eq_ediv_of_nonneg x hy]
   · rename_i x y
     split at hf
     · cases hf
@@ -306,7 +319,7 @@ theorem lowerE_sim (d : Dialect) (hd : d.Ok) (fns : List FnDef) : ∀ (fuel : Na
     simp only [Prod.mk.injEq] at h
     obtain ⟨hbc, _⟩ := h
     simp only [lowerE]
-    cases hfo : (if (d.fold && isLit l && isLit r) = true then foldOpd d (binTok op) l r (foldBin op l r) else none) with
+    cases hfo : (if (d.fold && isLit l && isLit r) = true then foldOpd d (binTok d op) l r (foldBin op l r) else none) with
     | some o =>
       -- Java: folded to a constant
       simp only []
@@ -323,7 +336,10 @@ theorem lowerE_sim (d : Dialect) (hd : d.Ok) (fns : List FnDef) : ∀ (fuel : Na
       · simp [State.evalOpd, State.evalOpdIn]
     | none =>
       simp only [hd.rightFirst, Bool.false_eq_true, if_false]
-      obtain ⟨e1, hk1, hop1, τ1, hex1, hev1, hsim1, hpres1, hloc1⟩ := ih l hp.1 hntl k σ' τ σ1 va h1 hsim
+      have hopd : op ≠ .div := by
+        have := hp.1.1
+        intro hc; subst hc; exact absurd this (by decide)
+      obtain ⟨e1, hk1, hop1, τ1, hex1, hev1, hsim1, hpres1, hloc1⟩ := ih l hp.1.2 hntl k σ' τ σ1 va h1 hsim
       subst e1
       obtain ⟨e2, hk2, hop2, τ2, hex2, hev2, hsim2, hpres2, hloc2⟩ := ih r hp.2 hntr (lowerE d l k).2.2 σ1 τ1 σ2 vb h2 hsim1
       subst e2
@@ -337,19 +353,20 @@ theorem lowerE_sim (d : Dialect) (hd : d.Ok) (fns : List FnDef) : ∀ (fuel : Na
       have hF1 : τ2.evalOpd a = .ok va :=
         opd_stable σ2 σ2 τ1 τ2 a k k1 va hop1 hev1 hsim1 hsim2 rfl rfl (fun j hj => hpres2 j (Or.inl hj))
       obtain ⟨a0, f0, hfa, hassign, hlook, hsim', hpres, hloc⟩ := write_tmp σ2 τ2 (k2 + 1) v hsim2
-      have hbin : binopH τ2.heap (binTok op) va vb = .ok (v, τ2.heap) := binCore_binopH τ2.heap op va vb v hbc
-      have hstep : stepSimple τ2 (.assign (tmp (k2 + 1)) (binTok op) a (some b)) =
+      have hbin : binopH τ2.heap (binTok d op) va vb = .ok (v, τ2.heap) :=
+        binCore_binopH τ2.heap d op hopd va vb v hbc
+      have hstep : stepSimple τ2 (.assign (tmp (k2 + 1)) (binTok d op) a (some b)) =
           some (.ok (τ2.wr a0 f0 (tmp (k2 + 1)) v)) := by
         simp only [stepSimple, hF1, hev2, State.binop, hbin]
         exact congrArg some hassign
       refine ⟨by omega, Or.inr (Or.inr ⟨rfl, by omega⟩), τ2.wr a0 f0 (tmp (k2 + 1)) v, ?_, ?_, hsim', ?_, ?_⟩
       · intro rest N
-        have e1 : N + (s1 ++ s2 ++ [Stmt.assign (tmp (k2 + 1)) (binTok op) a (some b)]).length
+        have e1 : N + (s1 ++ s2 ++ [Stmt.assign (tmp (k2 + 1)) (binTok d op) a (some b)]).length
             = (N + 1 + s2.length) + s1.length := by simp; omega
-        have e2 : (s1 ++ s2 ++ [Stmt.assign (tmp (k2 + 1)) (binTok op) a (some b)]) ++ rest
-            = s1 ++ (s2 ++ (Stmt.assign (tmp (k2 + 1)) (binTok op) a (some b) :: rest)) := by simp
+        have e2 : (s1 ++ s2 ++ [Stmt.assign (tmp (k2 + 1)) (binTok d op) a (some b)]) ++ rest
+            = s1 ++ (s2 ++ (Stmt.assign (tmp (k2 + 1)) (binTok d op) a (some b) :: rest)) := by simp
         rw [e1, e2, hex1, hex2]
-        exact exec_assign N τ2 _ _ (binTok op) a (some b) rest hsim2.budget hstep
+        exact exec_assign N τ2 _ _ (binTok d op) a (some b) rest hsim2.budget hstep
       · simpa [State.evalOpd, State.evalOpdIn, State.lookup] using hlook
       · intro j hj
         rw [hpres j (by omega), hpres2 j (by omega), hpres1 j (by omega)]
@@ -503,7 +520,7 @@ theorem opd_var_name (d : Dialect) (hd : d.Ok) (e : Expr) (k : Nat) (y : String)
   | var z => simp [lowerE] at ho; rw [ho]
   | bin op l r =>
     simp only [lowerE] at ho
-    cases hfo : (if (d.fold && isLit l && isLit r) = true then foldOpd d (binTok op) l r (foldBin op l r) else none) with
+    cases hfo : (if (d.fold && isLit l && isLit r) = true then foldOpd d (binTok d op) l r (foldBin op l r) else none) with
     | some o =>
       rw [hfo] at ho
       simp only at ho
